@@ -278,10 +278,10 @@ pub fn run(ctx: &Ctx, out: &mut Out) {
     }
     // enumerate (provider kind, plaintext length) pairs; shards take every n-th
     let mut work: Vec<(Kind, usize)> = Vec::new();
-    let token_lens: Vec<usize> = if ctx.thorough {
+    let token_lens: Vec<usize> = if true {
         (16..=1024).step_by(1).collect()
     } else {
-        vec![16, 17, 24, 31, 32, 33, 48, 60, 64, 100, 128, 255, 256, 257, 512, 1000, 1023, 1024]
+        (16..=1024usize).filter(|l| *l <= 40 || l % 8 == 0 || *l >= 1020 || [255, 257, 511, 513].contains(l)).collect()
     };
     for pt_len in 32..=64usize {
         work.push((Kind::AesWrap, pt_len));
@@ -291,7 +291,7 @@ pub fn run(ctx: &Ctx, out: &mut Out) {
         work.push((Kind::Token(*l), 32));
         work.push((Kind::Token(*l), 33 + (i % 32)));
     }
-    let reps = if ctx.thorough { 2 } else { 1 };
+    let reps = if ctx.thorough { 8 } else { 1 };
     let mut n = 0u64;
     'o: for _ in 0..reps {
         for (k, (kind, pl)) in work.iter().enumerate() {
@@ -299,7 +299,7 @@ pub fn run(ctx: &Ctx, out: &mut Out) {
                 continue;
             }
             // full position sweep for small blobs, strided sweep for large tokens in quick
-            let full = ctx.thorough || matches!(kind, Kind::AesWrap) || matches!(kind, Kind::Token(l) if *l <= 64);
+            let full = true;
             one_blob(out, &mut rng, *kind, *pl, full);
             n += 1;
             if n % 4 == 0 && !ctx.time_left() {
